@@ -98,6 +98,14 @@ func c02Check(env *h.Env, c *histCase) error {
 					continue
 				}
 				if !h.SameEntry(a, b, false) {
+					// attributes of an inode that has several names follow whichever of its names
+					// was written last: if only they differ, that is not a rewrite of this entry
+					if ax := *a; a.Kind == h.KFile && (a.Nlink > 1 || b.Nlink > 1) {
+						ax.Xattrs = b.Xattrs
+						if h.SameEntry(&ax, b, false) {
+							continue
+						}
+					}
 					return fmt.Errorf("%s: entry %q with unchanged identity was rewritten (inode %d -> %d, mtime %d -> %d)", what, p, b.Ino, a.Ino, b.Mtime, a.Mtime)
 				}
 			}
